@@ -287,8 +287,10 @@ package formula
 //@   panics never
 //@   ensures scanFrame(s) && s.pos >= old(s.pos) && nd(s) >= old(nd(s)) && s.tokenFlags == old(s.tokenFlags)
 //@   ensures[C15] len(result) == s.pos - old(s.pos)
+//@   ensures[C14] old(s.pos) < s.end && old(cur(s)) == 92 ==> s.pos == old(s.pos)
 //@   loop 1: invariant scanFrame(s) && old(s.pos) <= start && start <= s.pos && nd(s) >= old(nd(s)) && s.tokenFlags == old(s.tokenFlags)
 //@           invariant[C15] len(result) == 0 && start == old(s.pos)
+//@           invariant[C14] old(s.pos) < s.end && old(cur(s)) == 92 ==> s.pos == old(s.pos)
 //@           decreases s.end - s.pos
 
 // Operators and punctuation (C14), written from the statement: matched longest first.
@@ -296,6 +298,7 @@ package formula
 //@ spec opTok(t string, p int) int := t[p] == '!' ? (at(t, p, 1, '=') ? (at(t, p, 2, '=') ? SK_ExclamationEqualsEquals : SK_ExclamationEquals) : (at(t, p, 1, '!') ? SK_ExclamationExclamation : (at(t, p, 1, '.') ? SK_ExclamationDot : SK_Exclamation))) : (t[p] == '=' ? (at(t, p, 1, '=') ? (at(t, p, 2, '=') ? SK_EqualsEqualsEquals : SK_EqualsEquals) : SK_Equals) : (t[p] == '&' ? (at(t, p, 1, '&') ? SK_AmpersandAmpersand : SK_Ampersand) : (t[p] == '|' ? (at(t, p, 1, '|') ? SK_BarBar : SK_Bar) : (t[p] == '?' ? (at(t, p, 1, '?') ? SK_QuestionQuestion : SK_Question) : (t[p] == '<' ? (at(t, p, 1, '=') ? SK_LessThanEquals : SK_LessThan) : (t[p] == '>' ? (at(t, p, 1, '=') ? SK_GreaterThanEquals : SK_GreaterThan) : (t[p] == '.' ? ((at(t, p, 1, '.') && at(t, p, 2, '.')) ? SK_DotDotDot : SK_Dot) : opTok1(t[p]))))))))
 //@ spec opTok1(c int) int := c == '(' ? SK_OpenParen : (c == ')' ? SK_CloseParen : (c == '%' ? SK_Percent : (c == '*' ? SK_Asterisk : (c == '+' ? SK_Plus : (c == ',' ? SK_Comma : (c == '-' ? SK_Minus : (c == '/' ? SK_Slash : (c == ':' ? SK_Colon : (c == '[' ? SK_OpenBracket : (c == ']' ? SK_CloseBracket : (c == '^' ? SK_Caret : SK_Tilde)))))))))))
 //@ spec opLen(t string, p int) int := (t[p] == '!' || t[p] == '=') ? (at(t, p, 1, '=') ? (at(t, p, 2, '=') ? 3 : 2) : ((t[p] == '!' && (at(t, p, 1, '!') || at(t, p, 1, '.'))) ? 2 : 1)) : (((t[p] == '&' && at(t, p, 1, '&')) || (t[p] == '|' && at(t, p, 1, '|')) || (t[p] == '?' && at(t, p, 1, '?')) || ((t[p] == '<' || t[p] == '>') && at(t, p, 1, '='))) ? 2 : ((t[p] == '.' && at(t, p, 1, '.') && at(t, p, 2, '.')) ? 3 : 1))
+//@ spec asciiIdStart(c int) bool := (c >= 'A' && c <= 'Z') || (c >= 'a' && c <= 'z') || c == '$' || c == '_'
 //@ spec isOpCh(c int) bool := c == '!' || c == '=' || c == '&' || c == '|' || c == '?' || c == '<' || c == '>' || c == '.' || c == '(' || c == ')' || c == '%' || c == '*' || c == '+' || c == ',' || c == '-' || c == '/' || c == ':' || c == '[' || c == ']' || c == '^' || c == '~'
 
 //@ func (*Scanner).Scan
@@ -309,6 +312,11 @@ package formula
 //@   ensures s.token != SK_EndOfFile ==> s.pos > s.tokenPos
 //@   ensures s.token == SK_EndOfFile ==> s.pos == s.end
 //@   ensures[C01,C14] isIdTok(s.token) ==> len(s.tokenValue) > 0
+//@   ensures[C14] isIdTok(s.token) ==> s.tokenValue == s.text[s.tokenPos:s.pos]
+//@   ensures[C14] isIdTok(s.token) ==> !(s.pos < s.end && idPartU(runeAt(s.text, s.pos)))
+//@   ensures[C14] isIdTok(s.token) ==> idStartU(runeAt(s.text, s.tokenPos))
+//@   ensures[C14] isIdTok(s.token) ==> s.token == (kw(s.tokenValue) != SK_Unknown ? kw(s.tokenValue) : SK_Identifier)
+//@   ensures[C14] s.tokenPos < s.end && (asciiIdStart(s.text[s.tokenPos]) || (s.text[s.tokenPos] >= 128 && idStartU(runeAt(s.text, s.tokenPos)))) ==> isIdTok(s.token)
 //@   ensures[C14,C02] s.tokenPos < s.end && isOpCh(s.text[s.tokenPos]) && !numStart(s.text, s.tokenPos) ==> s.token == opTok(s.text, s.tokenPos) && s.pos == s.tokenPos + opLen(s.text, s.tokenPos)
 //@   ensures[C13] s.tokenPos < s.end && (s.text[s.tokenPos] == 34 || s.text[s.tokenPos] == 39) ==> s.token == SK_StringLiteral && s.tokenValue == strV(s.text, s.tokenPos + 1, s.tokenPos + 1, s.text[s.tokenPos]) && (!strG(s.text, s.tokenPos + 1, s.text[s.tokenPos]) ==> errd(s))
 //@   ensures[C12] s.tokenPos < s.end && numStart(s.text, s.tokenPos) ==> s.token == SK_NumberLiteral && s.pos == litEnd(s.text, s.tokenPos)
@@ -318,6 +326,8 @@ package formula
 //@           decreases s.end - s.pos
 //@   loop 2: invariant scanFrame(s) && s.startPos == old(s.pos) && nd(s) >= old(nd(s)) && s.tokenPos < s.pos
 //@           invariant tar@L2 == -1 || (s.pos <= tar@L2 && tar@L2 <= s.end)
+//@           invariant[C14] idStartU(runeAt(s.text, s.tokenPos))
+//@           invariant[C14] tar@L2 < 0 ==> !(s.pos < s.end && idPartU(runeAt(s.text, s.pos)))
 //@           invariant[C12,C13,C14] s.tokenPos < s.end && s.text[s.tokenPos] != 34 && s.text[s.tokenPos] != 39 && !numStart(s.text, s.tokenPos) && !isOpCh(s.text[s.tokenPos])
 //@           decreases tar@L2 >= 0 ? s.end - tar@L2 + 1 : 0
 
